@@ -415,90 +415,90 @@ func propC12(c *Ctx) {
 		goto validation
 	}
 	{
-	andT, andF := cmpEdges(add, func(b *ssa.BinOp) bool {
-		s, ok := constString(b.Y)
-		return b.Op == token.EQL && ok && s == "and" && isLoadOfField(b.X, fKind)
-	})
-	shape := func(st *ssa.Store) string {
-		phi, ok := st.Val.(*ssa.Phi)
-		if !ok || len(phi.Edges) != 2 {
-			return "?"
-		}
-		var cst string
-		hasB := false
-		for _, e := range phi.Edges {
-			if k, ok := e.(*ssa.Const); ok && k.Value != nil {
-				cst = k.Value.String()
+		andT, andF := cmpEdges(add, func(b *ssa.BinOp) bool {
+			s, ok := constString(b.Y)
+			return b.Op == token.EQL && ok && s == "and" && isLoadOfField(b.X, fKind)
+		})
+		shape := func(st *ssa.Store) string {
+			phi, ok := st.Val.(*ssa.Phi)
+			if !ok || len(phi.Edges) != 2 {
+				return "?"
 			}
-			if p, ok := e.(*ssa.Parameter); ok && p == add.Params[1] {
-				hasB = true
-			}
-		}
-		if !hasB {
-			return "?"
-		}
-		// short-circuit on the current val
-		iff, ok := terminator(phi.Block().Idom()).(*ssa.If)
-		if !ok || !isLoadOfField(iff.Cond, fVal) {
-			return "?"
-		}
-		switch cst {
-		case "false":
-			return "and"
-		case "true":
-			return "or"
-		}
-		return "?"
-	}
-	okAnd, okOr := false, false
-	allInstrs(add, func(in ssa.Instruction) {
-		st, ok := in.(*ssa.Store)
-		if !ok {
-			return
-		}
-		if f, _ := fieldOf(st.Addr); f != fVal {
-			return
-		}
-		switch shape(st) {
-		case "and":
-			if guardedByEdges(add, st, andT) {
-				okAnd = true
-			}
-		case "or":
-			if guardedByEdges(add, st, andF) {
-				okOr = true
-			}
-		}
-	})
-	c.Check("R12.3", "filterResults.add/and-arm", add.Pos(), okAnd, "kind == \"and\" folds with &&")
-	c.Check("R12.3", "filterResults.add/or-arm", add.Pos(), okOr, "any other kind folds with ||")
-	okAcc := false
-	{
-		_, notSet := func() (t, f []Edge) {
-			allInstrs(acc, func(in ssa.Instruction) {
-				if u, ok := in.(*ssa.UnOp); ok && u.Op == token.MUL {
-					if ff, _ := fieldOf(u.X); ff == fSet {
-						a, b := boolEdges(u)
-						t, f = append(t, a...), append(f, b...)
-					}
+			var cst string
+			hasB := false
+			for _, e := range phi.Edges {
+				if k, ok := e.(*ssa.Const); ok && k.Value != nil {
+					cst = k.Value.String()
 				}
-			})
-			return
-		}()
-		nT, nV := 0, 0
-		for _, r := range returnsOf(acc) {
-			v := returnValues(r)[0]
-			if k, ok := v.(*ssa.Const); ok && k.Value != nil && k.Value.String() == "true" && guardedByEdges(acc, r, notSet) {
-				nT++
-			} else if isLoadOfField(v, fVal) {
-				nV++
-			} else {
-				nT = -100
+				if p, ok := e.(*ssa.Parameter); ok && p == add.Params[1] {
+					hasB = true
+				}
 			}
+			if !hasB {
+				return "?"
+			}
+			// short-circuit on the current val
+			iff, ok := terminator(phi.Block().Idom()).(*ssa.If)
+			if !ok || !isLoadOfField(iff.Cond, fVal) {
+				return "?"
+			}
+			switch cst {
+			case "false":
+				return "and"
+			case "true":
+				return "or"
+			}
+			return "?"
 		}
-		okAcc = nT == 1 && nV == 1
-	}
-	c.Check("R12.3", "filterResults.accept/identity", acc.Pos(), okAcc, "no filter contributed → accept; otherwise the folded value")
+		okAnd, okOr := false, false
+		allInstrs(add, func(in ssa.Instruction) {
+			st, ok := in.(*ssa.Store)
+			if !ok {
+				return
+			}
+			if f, _ := fieldOf(st.Addr); f != fVal {
+				return
+			}
+			switch shape(st) {
+			case "and":
+				if guardedByEdges(add, st, andT) {
+					okAnd = true
+				}
+			case "or":
+				if guardedByEdges(add, st, andF) {
+					okOr = true
+				}
+			}
+		})
+		c.Check("R12.3", "filterResults.add/and-arm", add.Pos(), okAnd, "kind == \"and\" folds with &&")
+		c.Check("R12.3", "filterResults.add/or-arm", add.Pos(), okOr, "any other kind folds with ||")
+		okAcc := false
+		{
+			_, notSet := func() (t, f []Edge) {
+				allInstrs(acc, func(in ssa.Instruction) {
+					if u, ok := in.(*ssa.UnOp); ok && u.Op == token.MUL {
+						if ff, _ := fieldOf(u.X); ff == fSet {
+							a, b := boolEdges(u)
+							t, f = append(t, a...), append(f, b...)
+						}
+					}
+				})
+				return
+			}()
+			nT, nV := 0, 0
+			for _, r := range returnsOf(acc) {
+				v := returnValues(r)[0]
+				if k, ok := v.(*ssa.Const); ok && k.Value != nil && k.Value.String() == "true" && guardedByEdges(acc, r, notSet) {
+					nT++
+				} else if isLoadOfField(v, fVal) {
+					nV++
+				} else {
+					nT = -100
+				}
+			}
+			okAcc = nT == 1 && nV == 1
+		}
+		c.Check("R12.3", "filterResults.accept/identity", acc.Pos(), okAcc, "no filter contributed → accept; otherwise the folded value")
 	}
 validation:
 	vf := w.Fn("shovel/config", "ValidateFix")
